@@ -111,6 +111,80 @@ func c17HandlerCase(tr *vh.Transcript, r *vh.Rng) {
 		<-done
 		synctest.Wait()
 	}
+	// two sessions at the same time; the pool connection of the earlier one breaks and is replaced: the replacement is authorised
+	// for the same destination and the same miner as the connection it replaces (the later session must not matter)
+	if r.Bool(60) {
+		collect := func() []string {
+			rec.Mu.Lock()
+			defer rec.Mu.Unlock()
+			var seen []string
+			for stream, lines := range rec.Streams {
+				if strings.HasPrefix(stream, "topool") {
+					for _, l := range lines {
+						if m := c17UserRe.FindStringSubmatch(l); m != nil {
+							un := func(x string) string {
+								if x == "-" {
+									return ""
+								}
+								return x
+							}
+							seen = append(seen, vh.Hx(un(m[1]))+" "+vh.Hx(un(m[2])))
+						}
+					}
+				}
+			}
+			rec.Streams = nil
+			return seen
+		}
+		type sess struct {
+			cancel context.CancelFunc
+			side   net.Conn
+			done   chan struct{}
+		}
+		start := func(name string) sess {
+			minerSide, proxySide := net.Pipe()
+			miner := &vh.FakeMiner{C: minerSide, Rec: rec}
+			go miner.Run()
+			ctx, cancel := context.WithCancel(context.Background())
+			done := make(chan struct{})
+			go func() {
+				handler(ctx, proxySide)
+				close(done)
+			}()
+			synctest.Wait()
+			miner.Send(`{"id":2,"method":"mining.subscribe","params":["cgminer/4.9.0"]}`)
+			synctest.Wait()
+			miner.Send(`{"id":3,"method":"mining.authorize","params":["%s",""]}`, name)
+			synctest.Wait()
+			return sess{cancel, minerSide, done}
+		}
+		nameA, nameB := vh.Pick(r, []string{"farm.rigA", "solo", "a.b"}), vh.Pick(r, []string{"farm.rigB", "other.w9"})
+		collect()
+		a := start(nameA)
+		pool.Mu.Lock()
+		connA := pool.Conns[len(pool.Conns)-1]
+		pool.Mu.Unlock()
+		collect()
+		b := start(nameB)
+		collect()
+		// the earlier session's pool connection breaks; the proxy replaces it after its reconnect delay
+		connA.C.Close()
+		synctest.Wait()
+		time.Sleep(4 * time.Second)
+		synctest.Wait()
+		tr.Op("authorize %d %s %s", b2iLife(notProp), vh.Hx(nameA), vh.URLTokens(configured))
+		if seen := collect(); len(seen) == 1 {
+			tr.Out("%s", seen[0])
+		} else {
+			tr.Out("authorize-lines %d", len(seen))
+		}
+		for _, x := range []sess{a, b} {
+			x.cancel()
+			x.side.Close()
+			<-x.done
+		}
+		synctest.Wait()
+	}
 	pool.Mu.Lock()
 	for _, pc := range pool.Conns {
 		pc.C.Close()
